@@ -325,10 +325,14 @@ SIZES_WIDE = [(8189, 2, 4), (8190, 2, 4), (8192, 3, 4), (8193, 2, 4), (16384, 2,
               (32756, 3, 1), (32757, 2, 1)]
 
 
-def case_lines(k, label, w, h, sbypp, cfmt, enc, levels, updates, corre=None):
-    """updates: list of (pixels, (x,y,rw,rh)); returns (script lines, meta)"""
-    L = ["case %d %s" % (k, label), "variant %d %d" % VARIANT, "screen %d %d %d" % (w, h, sbypp)]
-    sf = server_fmt(sbypp)
+def case_lines(k, label, w, h, sbypp, cfmt, enc, levels, updates, corre=None, sfmt=None, econ=0):
+    """updates: list of (pixels, (x,y,rw,rh)); sfmt: server pixel format chosen by the application (None =
+    rfbGetScreen default), econ: rfbEconomicTranslate; returns (script lines, meta)"""
+    sf = sfmt if sfmt is not None else server_fmt(sbypp)
+    scr_line = "screen %d %d %d" % (w, h, sbypp)
+    if sfmt is not None:
+        scr_line += " %d %d %d %d %d %d %d %d %d" % (sf.depth, sf.be, sf.rmax, sf.gmax, sf.bmax, sf.rs, sf.gs, sf.bs, econ)
+    L = ["case %d %s" % (k, label), "variant %d %d" % VARIANT, scr_line]
     if cfmt is not None:
         L.append(cfmt.line())
     effc0 = (sf if cfmt is None else cfmt)
@@ -351,7 +355,7 @@ def case_lines(k, label, w, h, sbypp, cfmt, enc, levels, updates, corre=None):
             encs_used.append(sp[0])
             cur_spec = sp
         upd_spec.append(tuple(cur_spec))
-        fbhex = b"".join(p.to_bytes(sbypp, "little") for p in px).hex()
+        fbhex = b"".join(p.to_bytes(sbypp, "big" if (sf.be and sbypp > 1) else "little") for p in px).hex()
         tr = translate_screen(px, sf, eff)
         L.append("fb " + fbhex)
         L.append("tr %d %d %s" % (w, h, tr.hex()))
@@ -359,7 +363,7 @@ def case_lines(k, label, w, h, sbypp, cfmt, enc, levels, updates, corre=None):
         trs.append((tr, rect))
     effc = eff if eff.tc else BGR233
     meta = dict(w=w, h=h, sbypp=sbypp, cbypp=effc.bpp // 8, enc=enc, levels=levels, trs=trs, label=label,
-                cfmt=effc.tup(), corre=corre, updates=updates, cfmt_obj=cfmt, encs=encs_used, upd_spec=upd_spec)
+                cfmt=effc.tup(), corre=corre, updates=updates, cfmt_obj=cfmt, encs=encs_used, upd_spec=upd_spec, sfmt_obj=sfmt, econ=econ)
     return L, meta
 
 
@@ -378,9 +382,9 @@ def gen_cases(ctx, encs):
     k = 0
     quick = ctx.quick()
 
-    def add(label, w, h, sbypp, cfmt, enc, updates, levels=("-", "-"), corre=None):
+    def add(label, w, h, sbypp, cfmt, enc, updates, levels=("-", "-"), corre=None, sfmt=None, econ=0):
         nonlocal k
-        cases.append(case_lines(k, label, w, h, sbypp, cfmt, enc, levels, updates, corre))
+        cases.append(case_lines(k, label, w, h, sbypp, cfmt, enc, levels, updates, corre, sfmt, econ))
         k += 1
 
     def levels_for(enc):
@@ -496,6 +500,31 @@ def gen_cases(ctx, encs):
             fm = rng.choice([None, Fmt(32, 24, 0, 1, 255, 255, 255, 16, 8, 0), Fmt(16, 16, 0, 1, 31, 63, 31, 11, 5, 0)])
             add("tight:lastrect:%s" % kind, w, h, sbypp, fm, "tight", [(gen_content(rng, kind, w, h, sbypp), pick_rect(rng, w, h))],
                 (rng.choice(["-", "1", "9"]), rng.choice(["-", "-", "5"]), "lastrect"))
+    # 2h. server pixel formats chosen by the application (unequal component widths, RGB565/555/332,
+    #     10-11-11, either byte order) x rfbEconomicTranslate x client formats: every translation routine
+    #     (single table, three tables, none) feeds the encoders; translate() is recomputed in Python
+    SERVER_FORMATS = [Fmt(16, 16, 0, 1, 31, 63, 31, 11, 5, 0), Fmt(16, 16, 0, 1, 31, 63, 31, 0, 5, 11),
+                      Fmt(16, 15, 0, 1, 31, 31, 31, 10, 5, 0), Fmt(16, 12, 0, 1, 15, 15, 15, 8, 4, 0), Fmt(8, 8, 0, 1, 7, 7, 3, 5, 2, 0),
+                      Fmt(8, 8, 0, 1, 3, 7, 7, 6, 3, 0), Fmt(32, 32, 0, 1, 1023, 2047, 2047, 22, 11, 0), Fmt(32, 24, 0, 1, 127, 255, 63, 16, 8, 0),
+                      Fmt(32, 24, 0, 1, 255, 255, 255, 16, 8, 0), Fmt(32, 30, 0, 1, 1023, 1023, 1023, 20, 10, 0)]
+    # (the library reads the framebuffer in host byte order: serverFormat.bigEndian must be the host's, so no
+    #  big-endian server formats on this little-endian host)
+    for i in range(40 if quick else 900):
+        sfm = SERVER_FORMATS[i % len(SERVER_FORMATS)] if i < 2 * len(SERVER_FORMATS) else rng.choice(SERVER_FORMATS)
+        sbypp = sfm.bpp // 8
+        econ = (i // len(SERVER_FORMATS)) % 2 if i < 2 * len(SERVER_FORMATS) else rng.randint(0, 1)
+        w, h = rng.choice([(16, 16), (33, 17), (20, 9), (64, 20), (7, 40)])
+        enc = rng.choice(encs)
+        r = rng.random()
+        fm = None if r < 0.12 else (rng.choice(client_formats(rng, sbypp)[1:]) if r < 0.7 else random_format(rng))
+        kind = rng.choice(["noise", "hgrad", "vgrad", "pal16", "pal5", "rects8", "tilemix16", "pal129"])
+        dflt = server_fmt(sbypp)
+        px = [translate_pixel(p, dflt, sfm) for p in gen_content(rng, kind, w, h, sbypp)]
+        if kind == "noise":
+            px = [rng.randint(0, (1 << sfm.bpp) - 1) & sfm.mask() for _ in range(w * h)]
+        lv = ("-", "-") if enc != "tight" else (rng.choice(["-", "1", "9"]), "-", rng.choice(["-", "lastrect"]))
+        add("sfmt:%d-%d-%d%s:e%d:%s" % (sfm.rmax, sfm.gmax, sfm.bmax, "be" if sfm.be else "", econ, enc), w, h, sbypp, fm, enc,
+            [(px, pick_rect(rng, w, h))], lv, None, sfm, econ)
     # 2c. TightPng (SAMPLED: PNG container decoded by libpng in the harness, exact comparison)
     for i in range(6 if quick else 60):
         w, h = rng.choice(SIZES_SMALL)
@@ -759,7 +788,7 @@ def shrink_case(case, fails):
             px, rect = up[0], up[1]
             sp = meta["upd_spec"][ui]
             c = case_lines(0, meta["label"], meta["w"], meta["h"], meta["sbypp"], meta["cfmt_obj"], sp[0],
-                           tuple(sp[1:]), [(px, rect)], meta["corre"])
+                           tuple(sp[1:]), [(px, rect)], meta["corre"], meta.get("sfmt_obj"), meta.get("econ", 0))
             if fails(c):
                 return shrink_case(c, fails)
         # the failure needs the history: drop earlier updates while it still fails
@@ -769,7 +798,7 @@ def shrink_case(case, fails):
         def build(us, sps):
             full = [(u[0], u[1], " ".join(sp)) for u, sp in zip(us, sps)]
             return case_lines(0, meta["label"], meta["w"], meta["h"], meta["sbypp"], meta["cfmt_obj"], sps[0][0],
-                              tuple(sps[0][1:]), [(full[0][0], full[0][1])] + full[1:], meta["corre"])
+                              tuple(sps[0][1:]), [(full[0][0], full[0][1])] + full[1:], meta["corre"], meta.get("sfmt_obj"), meta.get("econ", 0))
         changed = True
         while changed and len(ups) > 2:
             changed = False
@@ -791,7 +820,7 @@ def shrink_case(case, fails):
                 continue
             npx = [px[y * w + x] for y in range(nh) for x in range(nw)]
             c = case_lines(0, meta["label"], nw, nh, meta["sbypp"], meta["cfmt_obj"], meta["enc"], meta["levels"],
-                           [(npx, (0, 0, nw, nh))], meta["corre"])
+                           [(npx, (0, 0, nw, nh))], meta["corre"], meta.get("sfmt_obj"), meta.get("econ", 0))
             budget -= 1
             if fails(c):
                 cur, px, w, h, changed = c, npx, nw, nh, True
